@@ -25,6 +25,9 @@ def corpus():
     for prog in gc.DIRECTED:
         for sched in ([], [1], [1, 1], [2], [gc.LAST], [gc.LAST - 1], [0, gc.LAST - 1], [1, 1, gc.LAST - 1], [0, 0, gc.LAST - 1]):
             out.append(json.dumps({"prog": prog, "sched": sched}, separators=(",", ":")))
+    # past false alarms of the monitor (must stay silent): a member cancelled inside a disposable's cleanup that catches it
+    out.append('{"prog":[["block","async",12,[],[],[["spawn",1,"spawn",[["block","async",2,[],[[1,["wait",1],"ok",[]]],[]]]],'
+               '["spawn",2,"spawn",[["try",[["block","async",8,[],[[5,"ok",["wait",5],[]]],[]]]],["await",7]]]]]],"sched":[2,1]}')
     return out
 
 
